@@ -51,6 +51,8 @@ var polluters = []struct{ name, src string }{
 	{"helper-result-edited", `var r = _.match({"a":"?x"}, {"a":"tacos"}, {}); r[0]["?x"] = "chips"; r[0].planted = true; r.push({"more": 1}); return _.bindings;`},
 	{"helper-replaced", `_.match = function() { return "hijacked"; }; _.randstr = null; return _.bindings;`},
 	{"helper-args-edited", `var p = {"a":"?x"}; var m = {"a":"tacos"}; var b = {}; var r = _.match(p, m, b); p.a = 1; m.a = 2; b.z = 3; return _.bindings;`},
+	{"props-shared-second-path", `_.props.s2.k = 99; _.props.lst[1].z = 1; _.props.lst[1].arr.push(2); return _.bindings;`},
+	{"bindings-permanent-nested", `_.bindings["cfg!"].limits.max = 99; _.bindings["cfg!"].hosts[0] = "x"; _.bindings["cfg!"].added = 1; return _.bindings;`},
 	{"define-getter", `Object.defineProperty(Object.prototype, "sneaky", {get: function() { return 1; }}); return _.bindings;`},
 }
 
@@ -120,6 +122,7 @@ func genIso(t *rapid.T) IsoCase {
 
 func inputBindings() match.Bindings {
 	return match.Bindings{"x": 1.0, "a": map[string]interface{}{"b": 1.0}, "l": []interface{}{1.0, 2.0},
+		"cfg!": map[string]interface{}{"limits": map[string]interface{}{"max": 1.0}, "hosts": []interface{}{"h"}},
 		"d":     map[string]interface{}{"e": map[string]interface{}{"f": []interface{}{}}},
 		"items": []interface{}{map[string]interface{}{"qty": 1.0}, map[string]interface{}{"qty": 2.0, "tags": []interface{}{"t"}}},
 		"grid":  []interface{}{[]interface{}{1.0, 2.0}, []interface{}{3.0}}}
@@ -136,7 +139,9 @@ func inputPropsMode(mode int) core.StepProps {
 }
 
 func inputProps() core.StepProps {
-	return core.StepProps{"n": 5.0, "q": "s", "a": map[string]interface{}{"b": 1.0}, "l": []interface{}{1.0, 2.0},
+	// one map reachable by several paths
+	shared := map[string]interface{}{"k": 1.0, "arr": []interface{}{1.0}}
+	return core.StepProps{"s1": shared, "s2": shared, "lst": []interface{}{shared, shared},"n": 5.0, "q": "s", "a": map[string]interface{}{"b": 1.0}, "l": []interface{}{1.0, 2.0},
 		"d":     map[string]interface{}{"e": map[string]interface{}{"f": []interface{}{}}},
 		"items": []interface{}{map[string]interface{}{"qty": 1.0}},
 		"grid":  []interface{}{[]interface{}{1.0, 2.0}, []interface{}{3.0}}}
